@@ -916,7 +916,9 @@ impl FrontendInternal {
         request: FrontendReq,
         size: u32,
     ) -> VhostUserMsgHeader<FrontendReq> {
-        VhostUserMsgHeader::new(request, self.hdr_flags.bits() | 0x1, size)
+        // Only NEED_REPLY is meaningful on a request; REPLY marks messages of the peer.
+        let flags = self.hdr_flags.bits() & VhostUserHeaderFlag::NEED_REPLY.bits();
+        VhostUserMsgHeader::new(request, flags | 0x1, size)
     }
 }
 
